@@ -112,6 +112,44 @@ where
     }
 }
 
+thread_local! {
+    /// how many times a per-layer filter's `enabled` ran on this thread (an `enabled` pass over the stack happened)
+    pub static FILTER_EVALS: std::cell::Cell<u64> = std::cell::Cell::new(0);
+}
+
+/// A transparent per-layer filter wrapper that counts `enabled` evaluations and forwards everything.
+pub struct CountEvals<C>(pub BoxF<C>);
+impl<C> Filter<C> for CountEvals<C> {
+    fn enabled(&self, meta: &Metadata<'_>, cx: &tracing_subscriber::subscribe::Context<'_, C>) -> bool {
+        FILTER_EVALS.with(|e| e.set(e.get() + 1));
+        self.0.enabled(meta, cx)
+    }
+    fn callsite_enabled(&self, meta: &'static Metadata<'static>) -> tracing_core::Interest {
+        self.0.callsite_enabled(meta)
+    }
+    fn max_level_hint(&self) -> Option<LevelFilter> {
+        self.0.max_level_hint()
+    }
+    fn event_enabled(&self, event: &tracing_core::Event<'_>, cx: &tracing_subscriber::subscribe::Context<'_, C>) -> bool {
+        self.0.event_enabled(event, cx)
+    }
+    fn on_new_span(&self, attrs: &tracing_core::span::Attributes<'_>, id: &tracing_core::span::Id, ctx: tracing_subscriber::subscribe::Context<'_, C>) {
+        self.0.on_new_span(attrs, id, ctx)
+    }
+    fn on_record(&self, id: &tracing_core::span::Id, values: &tracing_core::span::Record<'_>, ctx: tracing_subscriber::subscribe::Context<'_, C>) {
+        self.0.on_record(id, values, ctx)
+    }
+    fn on_enter(&self, id: &tracing_core::span::Id, ctx: tracing_subscriber::subscribe::Context<'_, C>) {
+        self.0.on_enter(id, ctx)
+    }
+    fn on_exit(&self, id: &tracing_core::span::Id, ctx: tracing_subscriber::subscribe::Context<'_, C>) {
+        self.0.on_exit(id, ctx)
+    }
+    fn on_close(&self, id: tracing_core::span::Id, ctx: tracing_subscriber::subscribe::Context<'_, C>) {
+        self.0.on_close(id, ctx)
+    }
+}
+
 /// Registry of the recording leaves created while building (so that engines can reach their config).
 pub struct Built<C> {
     pub layer: BoxS<C>,
@@ -130,7 +168,7 @@ where
         "global" => build_global::<C>(&v["f"]),
         "filtered" => {
             let c = build_tree::<C>(stack, &v["c"], leaves);
-            Box::new(c.with_filter(build_filter::<C>(&v["f"])))
+            Box::new(c.with_filter(CountEvals(build_filter::<C>(&v["f"]))))
         }
         "vec" => {
             let cs: Vec<BoxS<C>> = v["cs"].as_array().cloned().unwrap_or_default().iter().map(|c| build_tree::<C>(stack, c, leaves)).collect();
